@@ -210,6 +210,30 @@ class CaseInsensitiveDefaultDict(CaseInsensitiveDict):
         except KeyError:
             return self.default_factory()
 
+    # The mix-in versions of get(), setdefault() and pop() rely on
+    # __getitem__ raising KeyError for an absent key, which it never does here.
+
+    _marker = object()
+
+    def get(self, key, default=None):
+        if key in self:
+            return self[key]
+        return default
+
+    def setdefault(self, key, default=None):
+        if key not in self:
+            self[key] = default
+        return self[key]
+
+    def pop(self, key, default=_marker):
+        if key in self:
+            value = self[key]
+            del self[key]
+            return value
+        if default is self._marker:
+            raise KeyError(key)
+        return default
+
     def lower(self):
         result = type(self)(self.default_factory)
         result.update(self.items_lower())
